@@ -4,6 +4,7 @@ import (
 	"encoding/json"
 	"fmt"
 	"math/big"
+	"strings"
 
 	"github.com/vechain/thor/v2/block"
 	"github.com/vechain/thor/v2/builtin"
@@ -13,6 +14,7 @@ import (
 	"github.com/vechain/thor/v2/thor"
 	"github.com/vechain/thor/v2/trie"
 	"github.com/vechain/thor/v2/tx"
+	"github.com/vechain/thor/v2/xenv"
 
 	"verif/harness/internal/hx"
 )
@@ -35,6 +37,7 @@ func GenChain(r *hx.Rand) *ChainCase {
 	w := NewWorld(&c.Setup)
 	defer w.Close()
 	nb := 2 + r.Intn(4)
+	total := 0
 	for b := 0; b < nb; b++ {
 		s := c.Setup
 		s.Number = uint32(2 + b)
@@ -44,6 +47,34 @@ func GenChain(r *hx.Rand) *ChainCase {
 			if t.RefKind == 1 {
 				t.RefKind = 0
 			}
+			total++
+			switch r.Intn(14) {
+			case 0:
+				t.Exp = uint32(1 + r.Intn(4)) // may be expired at this height
+			case 1:
+				t.BadChainTag = true
+			case 2, 3:
+				if total > 1 {
+					t.Dep = 1 + r.Intn(total-1) // an earlier tx (adopted, reverted, rejected or in a previous block)
+				}
+			case 4:
+				t.Dep = -1 // unknown dependency
+			case 5:
+				t.FutureRef = s.Number + uint32(r.Intn(3)) // at / after this height
+			case 6:
+				if len(txs) > 0 {
+					t = txs[r.Intn(len(txs))] // the same tx again: known
+					t.Dep = 0
+				}
+			case 7:
+				// gas hog: burns (almost) the whole block gas limit
+				t.Clauses = []ClauseSpec{{To: AddrHex(AddrLoop), Value: "0"}}
+				t.Gas = s.GasLimit - uint64(r.Intn(40000))
+				t.Delegator, t.BadSig, t.Dep = -1, false, 0
+				if t.Dynamic {
+					t.MaxFee = new(big.Int).Mul(big10(s.BaseFee), big.NewInt(3)).String()
+				}
+			}
 			txs = append(txs, t)
 		}
 		c.Blocks = append(c.Blocks, txs)
@@ -52,7 +83,7 @@ func GenChain(r *hx.Rand) *ChainCase {
 }
 
 // RunChain returns the first block-level property failure (nil if none) and the number of blocks / txs adopted.
-func RunChain(ctx *hx.Ctx, prop string, c *ChainCase, count bool) *Failure {
+func RunChain(ctx *hx.Ctx, prop string, c *ChainCase, count bool, orc *hx.OracleProc) *Failure {
 	cnt := func(k string, n int) {
 		if count {
 			ctx.Cov.Add(k, n)
@@ -77,13 +108,24 @@ func RunChain(ctx *hx.Ctx, prop string, c *ChainCase, count bool) *Failure {
 	var want []string
 	for _, specs := range c.Blocks {
 		parent := w.Repo.BestBlockSummary()
+		var shadowReceipts tx.Receipts
 		flow, err := p.Schedule(parent, parent.Header.Timestamp()+1)
 		if err != nil {
 			hx.Fatal("schedule: %v", err)
 		}
 		adopted := 0
+		// shadow execution next to the flow: same parent state, same block context, tracer attached; the extracted Adopt model
+		// (adopt_full) is stepped on every transaction with the flow state (gas used, processed ids) threaded from ITS answers
+		w.Root, w.Head, w.minor, w.ver = parent.Root(), parent.Header.ID(), 1, 1000*(parent.Header.Number()+1)
+		w.Ctx = &xenv.BlockContext{Beneficiary: benef, Signer: DevAddr(0), Number: flow.Number(), Time: flow.When(),
+			GasLimit: parent.Header.GasLimit(), TotalScore: flow.TotalScore(), BaseFee: galactica.CalcBaseFee(parent.Header, w.Fork)}
+		chainView := w.Repo.NewChain(parent.Header.ID())
+		modelUsed := new(big.Int)
+		var modelProcessed []string
 		for i := range specs {
 			trx := w.BuildTx(&specs[i])
+			w.TxIDs = append(w.TxIDs, trx.ID())
+			o := w.Prepare(&specs[i], trx)
 			err := func() (err error) {
 				defer func() {
 					if r := recover(); r != nil {
@@ -92,10 +134,57 @@ func RunChain(ctx *hx.Ctx, prop string, c *ChainCase, count bool) *Failure {
 				}()
 				return flow.Adopt(trx)
 			}()
+			class := adoptClass(err)
 			if err == nil {
 				adopted++
+				w.Run(o)
 			} else {
-				cnt("block-tx-rejected", 1)
+				cnt("block-tx-rejected:"+class, 1)
+				w.Skip(o)
+			}
+			if orc == nil || class == "panic" {
+				continue
+			}
+			// inputs of adopt_full that are lookups / hashes
+			ai := []string{b01(o.SigOK && thor.IsOriginBlocked(o.Origin)), b01(o.Delegator != nil && thor.IsOriginBlocked(*o.Delegator)),
+				b01(trx.TestFeatures(tx.DelegationFeature) == nil), b01(trx.ChainTag() == w.Repo.ChainTag()), fmt.Sprintf("%x", trx.Expiration()),
+				hx.HexN(trx.ID().Bytes())}
+			if dep := trx.DependsOn(); dep != nil {
+				ai = append(ai, hx.HexN(dep.Bytes()))
+				if meta, err := chainView.GetTransactionMeta(*dep); err == nil {
+					ai = append(ai, "?", b01(meta.Reverted))
+				} else {
+					ai = append(ai, "?", "-")
+				}
+			} else {
+				ai = append(ai, "-", "?", "-")
+			}
+			has, _ := chainView.HasTransaction(trx.ID(), trx.BlockRef().Number())
+			ai[7] = b01(has)
+			line := "AD |" + w.oracleSections(o) + fmt.Sprintf(" | %x 0 %s %s | %s", w.Fork.BLOCKLIST, modelUsed.Text(16), strings.Join(modelProcessed, " "), strings.Join(ai, " "))
+			ans, aerr := orc.Ask(line)
+			if aerr != nil {
+				hx.Fatal("oracle: %v", aerr)
+			}
+			if strings.HasPrefix(ans, "ERR") {
+				return &Failure{"correspondence:adopt-outcome", fmt.Sprintf("block %d tx %d: impl=%s, model cannot follow: %s", flow.Number(), i, orNil(class, "adopted"), ans)}
+			}
+			a := o.ParseAnswer(ans)
+			if a.Failed != (err != nil) || (a.Failed && a.Err != class) {
+				m := "adopted"
+				if a.Failed {
+					m = a.Err
+				}
+				return &Failure{"correspondence:adopt-outcome", fmt.Sprintf("block %d tx %d: packer.Flow.Adopt=%s model adopt_full=%s", flow.Number(), i, orNil(class, "adopted"), m)}
+			}
+			if !a.Failed {
+				// the shadow run stands for the flow's own execution of this tx: receipts are compared after Pack
+				if d := o.Correspond(a, true); len(d) > 0 {
+					return &Failure{"correspondence:adopt-" + d[0].Field, fmt.Sprintf("block %d tx %d: %s", flow.Number(), i, d[0].Detail)}
+				}
+				modelUsed = a.FlowUsed
+				modelProcessed = append([]string{hx.HexN(trx.ID().Bytes()), b01(a.Reverted)}, modelProcessed...)
+				shadowReceipts = append(shadowReceipts, o.Receipt)
 			}
 		}
 		blk, stage, receipts, err := flow.Pack(DevKey(0), 0, false)
@@ -109,6 +198,17 @@ func RunChain(ctx *hx.Ctx, prop string, c *ChainCase, count bool) *Failure {
 			hx.Fatal("add block: %v", err)
 		}
 		h := blk.Header()
+		if orc != nil {
+			if modelUsed.Cmp(new(big.Int).SetUint64(h.GasUsed())) != 0 {
+				return &Failure{"correspondence:adopt-block-gas", fmt.Sprintf("block %d: header gasUsed=%d, adopt_full fold=%s", h.Number(), h.GasUsed(), modelUsed)}
+			}
+			if len(shadowReceipts) != len(receipts) || (len(receipts) > 0 && shadowReceipts.RootHash() != receipts.RootHash()) {
+				return &Failure{"correspondence:adopt-receipts", fmt.Sprintf("block %d: the flow's receipts differ from the shadow execution the model was checked against", h.Number())}
+			}
+			if adopted > 0 && w.Root.Hash != h.StateRoot() {
+				return &Failure{"correspondence:adopt-state-root", fmt.Sprintf("block %d: packed state root differs from the shadow execution's", h.Number())}
+			}
+		}
 		cnt("blocks-packed", 1)
 		cnt("block-txs-adopted", adopted)
 		T := h.Timestamp()
@@ -211,6 +311,34 @@ func RunChain(ctx *hx.Ctx, prop string, c *ChainCase, count bool) *Failure {
 	return nil
 }
 
+func orNil(s, d string) string {
+	if s == "" {
+		return d
+	}
+	return s
+}
+
+// adoptClass: the class of Flow.Adopt's answer through the packer's public classifiers (sentinel text for the two it lacks).
+func adoptClass(err error) string {
+	switch {
+	case err == nil:
+		return ""
+	case packer.IsGasLimitReached(err):
+		return "gas-limit-reached"
+	case packer.IsTxNotAdoptableNow(err):
+		return "not-adoptable-now"
+	case packer.IsBadTx(err):
+		return "bad-tx"
+	case err.Error() == "known tx":
+		return "known-tx"
+	case err.Error() == "tx not adoptable forever":
+		return "not-adoptable-forever"
+	case strings.HasPrefix(err.Error(), "panic:"):
+		return "panic"
+	}
+	return "other"
+}
+
 func isSelfDestructor(pre *Walk, a thor.Address) bool {
 	if a == AddrSelfDestructSelf || a == AddrSelfDestructTo {
 		return true
@@ -220,6 +348,14 @@ func isSelfDestructor(pre *Walk, a thor.Address) bool {
 }
 
 func RunChains(ctx *hx.Ctx, prop string, cases []*ChainCase) {
+	if len(cases) == 0 {
+		return
+	}
+	orc, err := hx.StartOracle(ctx.Oracle)
+	if err != nil {
+		hx.Fatal("oracle: %v", err)
+	}
+	defer orc.Close()
 	for _, c := range cases {
 		canon, _ := json.Marshal(c)
 		ntx := 0
@@ -227,7 +363,7 @@ func RunChains(ctx *hx.Ctx, prop string, cases []*ChainCase) {
 			ntx += len(b)
 		}
 		ctx.Cov.Case("chain:"+string(canon), ntx >= 2, nil)
-		if f := RunChain(ctx, prop, c, true); f != nil {
+		if f := RunChain(ctx, prop, c, true, orc); f != nil {
 			// shrink: drop whole blocks from the end, then single txs
 			cur := c
 			for changed := true; changed; {
@@ -242,7 +378,7 @@ func RunChains(ctx *hx.Ctx, prop string, cases []*ChainCase) {
 							}
 							x.Blocks = append(x.Blocks, l)
 						}
-						if g := RunChain(ctx, prop, x, false); g != nil && g.Class == f.Class {
+						if g := RunChain(ctx, prop, x, false, orc); g != nil && g.Class == f.Class {
 							cur, changed = x, true
 							break
 						}
@@ -268,4 +404,3 @@ func LoadChainReplay(raw []byte) *ChainCase {
 	return doc.Replay
 }
 
-var _ = tx.TypeLegacy
